@@ -40,6 +40,7 @@ BOUNDS = {
     "resolver": "4 named pipelines, priorities 0..1 (quick) / 0..2 (thorough) each (ties included), every non-empty subset in every order, resolved once or twice; also with pipelines that have no transformation items (NOITEMS=1) and with pipelines whose declared names are all equal, i.e. ordered only by the identifier they are resolved by (SAMENAME=1)",
     "addition": "3 operands + empty pipeline, 10 bracketing/history variants (incl. a post-processing-only operand reused in a later sum while the first backend keeps converting)",
     "stages": "backend/user/output-format pipelines present or absent, output format omitted / 'default' / 'alt', 1..2 rules x 1..2 conditions",
+    "format history": "convert() over 1..2 rules or convert_rule() with one output format, then convert_rule() with another (3 x 3 formats), backend / user pipelines present or absent",
     "outside": "more than 4 pipelines; pipelines loaded from directories (file I/O)",
 }
 ASSUMPTIONS = ["order of application is observed through order-sensitive marker items (suffix / embed / concat)"]
@@ -261,6 +262,46 @@ def check_stages(has_b: bool, has_u: bool, has_o: bool, fmt: int, nr: int, nc: i
     return v.get("backend") == cls.name and v.get("output_format") == (fmt_arg or "default") and (not tags or v.get("last") == tags[-1])
 
 
+def check_format_history(has_b: bool, has_u: bool, f1: int, f2: int, nr: int) -> bool:
+    """convert()/convert_rule() with output format f1, then convert_rule() with f2 on the same backend: the second
+    call runs backend pipeline, user pipeline and the pipeline of ITS output format, like a fresh backend does."""
+    attrs = {
+        "backend_processing_pipeline": mk("B") if has_b else ProcessingPipeline(),
+        "output_format_processing_pipeline": {"default": mk("O"), "alt": mk("A")},
+        "formats": {"default": "d", "alt": "a"},
+        "finalize_query_alt": lambda self, rule, query, index, state: query,
+        "finalize_output_alt": lambda self, queries: list(queries),
+    }
+    cls = type("StageBackend", (VBackend,), attrs)
+    fmts = [None, "default", "alt"]
+    b = cls(mk("U") if has_u else None)
+    if nr == 0:
+        b.convert_rule(probe_rules(1, 1)[0], fmts[f1])
+    else:
+        coll = SigmaCollection(probe_rules(nr, 1))
+        b.convert(coll) if fmts[f1] is None else b.convert(coll, fmts[f1])
+    got = [q for r in probe_rules(2, 2) for q in b.convert_rule(r, fmts[f2])]
+    fresh = cls(mk("U") if has_u else None)
+    want = [q for r in probe_rules(2, 2) for q in fresh.convert_rule(r, fmts[f2])]
+    return got == want and b.last_processing_pipeline.vars.get("output_format") == (fmts[f2] or "default")
+
+
+def c14c_format_history_concrete(has_b: bool, has_u: bool, f1: int, f2: int, nr: int) -> bool:
+    return check_format_history(has_b, has_u, f1, f2, nr)
+
+
+def c14c_format_history(has_b: bool, has_u: bool, f1: int, f2: int, nr: int) -> bool:
+    """
+    pre: 0 <= f1 < 3 and 0 <= f2 < 3
+    pre: 0 <= nr < 3
+    post: _
+    """
+    hb, hu, a, b_, n = selb(has_b), selb(has_u), sel(f1, 3), sel(f2, 3), sel(nr, 3)
+    with concrete_section():
+        ok = check_format_history(hb, hu, a, b_, n)
+    return fin(ok)
+
+
 def c14c_stages(has_b: bool, has_u: bool, has_o: bool, fmt: int, nr: int, nc: int) -> bool:
     """
     pre: 0 <= fmt < 3
@@ -295,6 +336,7 @@ OBLIGATIONS = [
     Ob("c14a_resolver", {"PMAX": 2, "NOITEMS": 1}, 3000, tier="thorough"),
     Ob("c14b_add", {}, 300),
     Ob("c14c_stages", {}, 300),
+    Ob("c14c_format_history", {}, 300),
 ]
 
 SELFCHECKS = [
